@@ -11,5 +11,6 @@ import NbioVerif.Properties.C08
 #print axioms Http.c08_missing_cr
 #print axioms Http.c08_bare_lf_in_header
 #print axioms Http.c08_silent_after_close
+#print axioms Http.c08_no_nil_deref
 #print axioms Http.errIn_machine
 #print axioms Scan.loopC_eq_loop
